@@ -10,7 +10,7 @@ use stam::*;
 const ANNO_NS: &str = "http://www.w3.org/ns/anno/";
 const ANNO_CTX: &str = "http://www.w3.org/ns/anno.jsonld";
 
-const IDS: &[&str] = &["r0", "my res", "http://ex.org/res1", "urn:x:1", "r\"q", "r\\b", "\u{e9}\u{1F600}", "ctl\u{1}x", "tab\tx", "nl\nx", "a/b#c", "cr\rx", "file:///tmp/x y"];
+const IDS: &[&str] = &["r0", "my res", "http://ex.org/res1", "urn:x:1", "r\"q", "r\\b", "\u{e9}\u{1F600}", "ctl\u{1}x", "tab\tx", "nl\nx", "a/b#c", "cr\rx", "file:///tmp/x y", "doc{end}", "{begin}x{resource}"];
 const KEYS: &[&str] = &["k", "key with space", "k\"q", "k\\b", "http://purl.org/dc/terms/title", "\u{e9}", "tab\tk", "ctl\u{2}", "http://ex.org/ns/pos", "http://ex.org/ns#label", "http://ex.org/nspace"];
 const ANNO_KEYS: &[&str] = &["motivation", "creator", "created", "generated", "generator", "purpose", "value", "type", "id", "format", "k\"q"];
 
@@ -57,7 +57,7 @@ fn expected_leaves(store: &AnnotationStore, sel: &Selector, cfg: &WebAnnoConfig,
         }
         Selector::AnnotationSelector(a, None) => out.push(Leaf::Ann(store.annotation(*a).unwrap().id().map(|i| into_iri(i, &cfg.default_annotation_iri)))),
         Selector::ResourceSelector(r) => out.push(Leaf::Res(into_iri(store.resource(*r).unwrap().id().unwrap_or("?"), &cfg.default_resource_iri))),
-        Selector::DataSetSelector(s) => out.push(Leaf::Set(into_iri(store.dataset(*s).unwrap().id().unwrap_or("?"), &cfg.default_resource_iri))),
+        Selector::DataSetSelector(s) => out.push(Leaf::Set(into_iri(store.dataset(*s).unwrap().id().unwrap_or("?"), &cfg.default_set_iri))),
         Selector::DataKeySelector(..) | Selector::AnnotationDataSelector(..) => out.push(Leaf::Skipped),
         Selector::CompositeSelector(v) | Selector::MultiSelector(v) | Selector::DirectionalSelector(v) => for s in v { expected_leaves(store, s, cfg, out) },
         Selector::RangedTextSelector { .. } | Selector::RangedAnnotationSelector { .. } => for s in sel.iter(store, false) { expected_leaves(store, &s, cfg, out) },
@@ -328,12 +328,12 @@ fn wd_sel(store: &AnnotationStore, sel: &Selector, cfg: &WebAnnoConfig, out: &mu
             let res = store.resource(*r).unwrap();
             let ts: &TextSelection = res.as_ref().get(*t).unwrap();
             let iri = into_iri(res.id().unwrap_or("?"), &cfg.default_resource_iri);
-            let tmpl = cfg.extra_target_template.as_ref().map(|t| t.replace("{resource}", &iri).replace("{begin}", &ts.begin().to_string()).replace("{end}", &ts.end().to_string())).unwrap_or_default();
+            let tmpl = cfg.extra_target_template.as_ref().map(|t| t.replace("{begin}", &ts.begin().to_string()).replace("{end}", &ts.end().to_string()).replace("{resource}", &iri)).unwrap_or_default();
             out.extend(["t".to_string(), hex(&iri), ts.begin().to_string(), ts.end().to_string(), hex(&tmpl)]);
         }
         Selector::AnnotationSelector(a, None) => { out.push("a".into()); out.push(store.annotation(*a).unwrap().id().map(|i| hex(&into_iri(i, &cfg.default_annotation_iri))).unwrap_or("~".into())); }
         Selector::ResourceSelector(r) => { out.push("r".into()); out.push(hex(&into_iri(store.resource(*r).unwrap().id().unwrap_or("?"), &cfg.default_resource_iri))); }
-        Selector::DataSetSelector(s) => { out.push("s".into()); out.push(hex(&into_iri(store.dataset(*s).unwrap().id().unwrap_or("?"), &cfg.default_resource_iri))); }
+        Selector::DataSetSelector(s) => { out.push("s".into()); out.push(hex(&into_iri(store.dataset(*s).unwrap().id().unwrap_or("?"), &cfg.default_set_iri))); }
         Selector::DataKeySelector(..) | Selector::AnnotationDataSelector(..) => out.push("k".into()),
         Selector::CompositeSelector(v) | Selector::MultiSelector(v) | Selector::DirectionalSelector(v) => {
             out.push(match sel { Selector::CompositeSelector(_) => "c0", Selector::MultiSelector(_) => "c1", _ => "c2" }.into());
